@@ -51,10 +51,20 @@ InjectiveCulprits ==
                                         /\ ~InjectiveP(Obs(i)[3], Obs(i)[4], Log[i].frame, Obs(j)[3], Obs(j)[4], Log[j].frame)}
 HdrSet == {<<Log[i].kind, IdOf(Log[i].kind, Log[i].c), ObsHeader(Log[i].frame, Log[i].x)>> :
               i \in {j \in Framed : EndsWith(Log[j].frame, Log[j].x)}}
-PrefixBad == {p \in HdrSet \X HdrSet : p[1][1] = p[2][1] /\ ~PrefixFreeP(p[1][2], p[1][3], p[2][2], p[2][3])}
+\* PrefixFree over all observed headers without enumerating all pairs: a header is bad when one of its
+\* proper prefixes (only the lengths that occur need to be tried) is itself an observed header of the kind,
+\* or when another channel has the very same header.  PrefixFreeP confirms every reported pair.
+HdrOnly == {<<p[1], p[3]>> : p \in HdrSet}
+HdrLens == [k \in Kinds |-> {Len(p[3]) : p \in {q \in HdrSet : q[1] = k}}]
+SameHeaderBad == IF Cardinality(HdrOnly) = Cardinality(HdrSet) THEN {}
+                 ELSE {p \in HdrSet : \E q \in HdrSet : q[1] = p[1] /\ q[3] = p[3] /\ q[2] # p[2]}
+PrefixBad == {p \in HdrSet : \E n \in HdrLens[p[1]] : n < Len(p[3]) /\ <<p[1], Take(p[3], n)>> \in HdrOnly}
+             \cup SameHeaderBad
 PrefixCulprits ==
-    {j \in Framed : \E p \in PrefixBad : Log[j].kind = p[1][1] /\ IdOf(Log[j].kind, Log[j].c) = p[1][2]
-                                          /\ EndsWith(Log[j].frame, Log[j].x) /\ ObsHeader(Log[j].frame, Log[j].x) = p[1][3]}
+    {j \in Framed : /\ EndsWith(Log[j].frame, Log[j].x)
+                    /\ <<Log[j].kind, IdOf(Log[j].kind, Log[j].c), ObsHeader(Log[j].frame, Log[j].x)>> \in PrefixBad
+                    /\ \E q \in HdrSet : q[1] = Log[j].kind
+                          /\ ~PrefixFreeP(IdOf(Log[j].kind, Log[j].c), ObsHeader(Log[j].frame, Log[j].x), q[2], q[3])}
 GlobalViol(j) ==
     (IF ~InjectiveAll /\ j \in InjectiveCulprits THEN {"Injective"} ELSE {})
     \cup (IF PrefixBad # {} /\ j \in PrefixCulprits THEN {"PrefixFree"} ELSE {})
